@@ -8,31 +8,31 @@ EX = "exploration"
 
 # id -> (category, technique, text, note, design_ref)
 CLAIMED = {
- "C06": (MC, "TLC: ChunkProto sender x reference receiver (exhaustive, small constants) + trace validation of foreign byte streams (Trace_Chunk, real constants)",
+ "C06": (MC, "TLC: ChunkProto sender x reference receiver (exhaustive, small constants); Gen_ChunkRx: TLC-generated chunk-level behaviours of an arbitrary conformant peer at the real constants (class-window cover) encoded and fed to the real deserializer (S2); trace validation of these and of random foreign byte streams (Trace_Chunk, real constants)",
          "Design level: every legal encoding is decoded exactly by the reference receiver (TLC, exhaustive for 2 csids/2 types/words mod 4). Code level: harness-encoded foreign streams are parsed by the TLA+ reference receiver and fed to the library deserializer; three-way agreement per message, per input call.",
          "TLC; the harness event logger; foreign streams are sampled (boundary tables + seeded random), not enumerated", "5 C06"),
 }
 
 CLAIMED.update({
- "C01": (MC, "TLC: MC_Chunk (library header-compression policy refines the legal sender; reference receiver delivers exactly) + trace validation of library serializer -> library deserializer runs under several input partitions (Trace_Chunk, intent oracle)",
+ "C01": (MC, "TLC: MC_Chunk (library header-compression policy refines the legal sender; reference receiver delivers exactly) ; Gen_Chunk: TLC-generated serializer call sequences at the real constants (class-window cover) replayed on the real codec (S2); trace validation of these and of random library serializer -> library deserializer runs under several input partitions (Trace_Chunk, intent oracle)",
          "Design level: the library's format/csid policy, transcribed, only ever picks encodings the protocol allows and the reference receiver reassembles them exactly (exhaustive, small constants). Code level: for generated message sequences (boundary tables, all flags, size changes, payloads up to 16,777,215 bytes) the messages returned by every input call must be exactly the intended messages whose last byte that call delivered; every accepted message must yield a non-empty packet.",
          "TLC; harness logger; message sequences are boundary-table driven + seeded random, not enumerated; S1 constants: words mod 4, lengths {0,1,3}, chunk sizes {1,2}, 2 messages (quick)", "5 C01"),
- "C07": (MC, "TLC trace validation: every byte the library serializer returns is parsed by the TLA+ ChunkWire module (RTMP 5.3.1 layout; self-checked by MC_Wire) and run through the reference receiver ChunkProto!Rx; decoded header/payload must equal the intended message",
+ "C07": (MC, "TLC trace validation (random and TLC-generated Gen_Chunk call sequences): every byte the library serializer returns is parsed by the TLA+ ChunkWire module (RTMP 5.3.1 layout; self-checked by MC_Wire) and run through the reference receiver ChunkProto!Rx; decoded header/payload must equal the intended message",
          "The decoder that judges the library's output is written in TLA+ from the protocol document and shares no code or constant with the library, so a symmetric change to serializer and deserializer is rejected. Checks csid minimality, predecessor rule, 24-bit saturation/extended field, payload cut by the announced chunk size, in-band size announcement before use.",
          "TLC; harness logger; ChunkWire/ChunkProto as a faithful reading of RTMP 1.0 section 5.3.1", "5 C07"),
- "C08": (MC, "TLC: MC_Chunk with dropped droppable messages (and a negative control without the rule) + Trace_Chunk exploring ALL 2^k subsets of droppable packets of each recorded serializer run",
+ "C08": (MC, "TLC: MC_Chunk with dropped droppable messages (and a negative control without the rule) + Trace_Chunk exploring ALL 2^k subsets of droppable packets of each recorded serializer run (random and TLC-generated Gen_Chunk sequences incl. refused calls between droppable packets)",
          "The drop decision is left nondeterministic in the trace specification, so TLC explores every subset of omitted droppable packets for each recorded run; each surviving packet must decode to its own message. The library's deserializer is additionally run on sampled subsets.",
          "TLC; harness logger", "5 C08"),
- "C16": (MC, "TLC: MC_Chunk with Interleave = TRUE + trace validation of harness-encoded interleaved streams fed to the library deserializer",
+ "C16": (MC, "TLC: MC_Chunk with Interleave = TRUE; Gen_ChunkRx interleaved behaviours (S2); trace validation of harness-encoded interleaved streams (2-16 chunk streams) fed to the library deserializer",
          "Design level: per-csid reassembly delivers every interleaving exactly. Code level: interleaved multi-chunk messages on 2-4 csids (with in-band size changes in flight), validated by the reference receiver and compared with the library's output per input call.",
          "TLC; harness logger; interleavings sampled", "5 C16"),
 })
 
 CLAIMED.update({
- "C04": (MC, "TLC: MC_Amf0 (reference Enc/Dec round trip, exhaustive on a small universe) + trace validation of library serialize->deserialize (Trace_Amf0: values compared in TLA+, numbers bitwise, objects as maps)",
+ "C04": (MC, "TLC: MC_Amf0 (reference Enc/Dec round trip, exhaustive on a small universe); Gen_Amf0: every reference encoding of a larger TLC-enumerated universe replayed on the real codec (S2); trace validation of library serialize->deserialize (Trace_Amf0: values compared in TLA+, numbers bitwise, objects as maps)",
          "Every recorded encode call is judged by the specification: success requires that the bytes decode (library decoder) to the identical value sequence with all bytes consumed, and that the value is representable; a refusal is legal only for unrepresentable values.",
          "TLC; harness logger; values are boundary-table driven + seeded random", "5 C04"),
- "C12": (MC, "TLC: MC_Amf0 + Trace_Amf0: a reference AMF0 decoder written in TLA+ from the AMF0 specification reads the library's bytes (encoder direction) and defines what harness-made reference encodings denote (decoder direction, incl. all 256 markers, every truncation point)",
+ "C12": (MC, "TLC: MC_Amf0 + Gen_Amf0 (TLC-enumerated reference encodings, all strict prefixes, bad-marker variants fed to the real decoder) + Trace_Amf0: a reference AMF0 decoder written in TLA+ from the AMF0 specification reads the library's bytes (encoder direction) and defines what harness-made reference encodings denote (decoder direction, incl. all 256 markers, every truncation point)",
          "The oracle for the wire format is the TLA+ module Amf0 (markers, widths, byte orders, terminator), independent of the library's marker constants; a change of a marker on both library sides is rejected.",
          "Amf0.tla as a faithful reading of the AMF0 specification; TLC; harness logger and its reference encoder (validated by the TLA+ decoder per case: disagreement is a tool error)", "5 C12"),
 })
@@ -47,9 +47,9 @@ CLAIMED.update({
  "C10": (MC, "TLC: MC_Client (every history, observation-driven history state); Gen_Client transition cover replayed on the real ClientSession (S2); Trace_Client replays these and random histories through CliStep",
          "Same construction as C09 for the client workflow: permitted states per request, transaction bookkeeping, status dispatch, media gating, stop, ping echo.",
          "TLC; probe hook; library codec for decoding returned packets", "5 C10"),
- "C17": (MC, "Apalache: inductive invariant of AckFlat for all windows 1..2^32-1 and all call sizes; TLC: small windows exhaustively; Trace_Server/Trace_Client judge every input call of both real sessions with AckStep",
+ "C17": (MC, "Apalache: inductive invariant of AckFlat for all windows 1..2^32-1 and all call sizes; TLAPS: Spec => []Inv for every modulus (AckFlatProof, 39 obligations); TLC: small windows exhaustively; Trace_Server/Trace_Client judge every input call of both real sessions (whole messages and fragments that complete none) with AckStep",
          "The accounting law (conservation, fewer than W outstanding, an acknowledgement exactly when the threshold is reached, carrying the count) is proved inductive symbolically over unbounded integers; each recorded handle_input call of both sessions is then checked against the same step function with the real window values.",
-         "Apalache/Z3; TLC; the byte count of a call is the length of the slice passed in", "5 C17"),
+         "Apalache/Z3; tlapm (SMT back end); TLC; the byte count of a call is the length of the slice passed in", "5 C17"),
 })
 
 CLAIMED.update({
@@ -73,7 +73,7 @@ CLAIMED.update({
          "child-process supervisor, counting allocator; TLC", "5 C14"),
  "C19": (EX, "Trace_Resource with the Honoured(class) table in TLA+ (what each configuration class must do) over the full class product at every entry point, in supervised child processes",
          "Exhaustive over the class product; refusal classes must return an error, accepted classes must return ok, still carry messages, and stay inside the time/memory envelope (a hang or runaway allocation is a dead child = no action in the specification).",
-         "child-process supervisor; 'still works' probe evaluated in the harness; TLC", "5 C19"),
+         "child-process supervisor; 'still works' = codec round trip / ping / media probe plus complete dialogues with a real session of the other role, evaluated in the harness child; TLC", "5 C19"),
 })
 
 CLAIMED.update({
